@@ -7,7 +7,7 @@ Import ListNotations.
    output: (0 status) | (1 ((path...) (values...)) ...) final values per written path, in first-write order *)
 Fixpoint dec_ty (fuel : nat) (x : sx) : ty :=
   match fuel with O => TScalar SString | S f =>
-  let k := match as_Z (nth_sx 1 x) with 1%Z => SInt | _ => SString end in
+  let k := match as_Z (nth_sx 1 x) with 1%Z => SInt | 2%Z => SUint8 | 3%Z => SUint16 | 4%Z => SInt8 | _ => SString end in
   match as_Z (nth_sx 0 x) with
   | 0%Z => TScalar k
   | 1%Z => TSlice k
